@@ -142,11 +142,13 @@ func (h *seqHarness) handler() jrpc2.Handler {
 		if m := req.Method(); m[0] == 'g' || m[0] == 'h' {
 			h.gates.Wait(m)
 		}
+		// the context is observed atomically with the log append (arguments evaluated after the scheduling point)
+		vs.Yield("h_exit")
 		if req.Method()[0] == 'f' {
-			vs.Event("h_exit", req.Method(), req.ID(), tok, ctxErrStr(ctx), "error")
+			vs.Note("h_exit", req.Method(), req.ID(), tok, ctxErrStr(ctx), "error")
 			return nil, jrpc2.Errorf(jrpc2.Code(77), "failed %s", tok)
 		}
-		vs.Event("h_exit", req.Method(), req.ID(), tok, ctxErrStr(ctx), "ok")
+		vs.Note("h_exit", req.Method(), req.ID(), tok, ctxErrStr(ctx), "ok")
 		return tok, nil
 	}
 }
